@@ -109,8 +109,22 @@ func genYield(t *core.Tape, p *CallPlan) {
 	}
 }
 
-// payload strata; cmin is the relevant compression threshold.
+// payload strata; cmin is the relevant compression threshold. Sizes are
+// sizes of the BytesValue's value; the encoded message is 2-3 bytes longer
+// (proto) or 4/3 as long (JSON), so the strata around the 512-byte pool seed
+// and around the threshold are windows, not single values: every encoded
+// size from a few bytes below to a few bytes above the boundary is hit.
 func genSize(t *core.Tape, cmin int, tier string) int {
+	switch t.Pick([]int{10, 3, 2, 2}, "size.stratum") {
+	case 1: // encoded size straddles 512 (proto: value+3)
+		return 498 + t.Choose(20, "size.near512")
+	case 2: // JSON: base64 of n bytes is 4*ceil(n/3)+2 characters
+		return 372 + t.Choose(16, "size.near512json")
+	case 3:
+		if cmin > 8 {
+			return cmin - 6 + t.Choose(9, "size.nearcmin")
+		}
+	}
 	base := []int{0, 1, 2, 5, 100, 511, 512, 513, 4096}
 	if cmin > 1 {
 		base = append(base, cmin-1, cmin, cmin+1)
